@@ -821,14 +821,29 @@ func runOverlayFile(p *Program, rel, test, runPat string) (string, error) {
 	os.WriteFile(ovFile, ob, 0o644)
 	ctx, cancel := context.WithTimeout(context.Background(), 240*time.Second)
 	defer cancel()
-	cmd := exec.CommandContext(ctx, "go", "test", "-overlay", ovFile, "-vet=off", "-count=1", "-timeout", "60s", "-run", runPat, "-v", "./"+rel)
+	args := []string{"test", "-overlay", ovFile, "-vet=off", "-count=1", "-timeout", "60s", "-run", runPat, "-v"}
+	race := strings.Contains(test, "// govc:race")
+	if race {
+		// scenario for a data race: run under the happens-before race detector
+		args = append(args, "-race")
+	}
+	cmd := exec.CommandContext(ctx, "go", append(args, "./"+rel)...)
 	cmd.Dir = p.RepoDir
 	cmd.Env = append(os.Environ(), "GOFLAGS=-mod=mod", "GOPROXY=off")
 	var out bytes.Buffer
 	cmd.Stdout = &out
 	cmd.Stderr = &out
 	err = cmd.Run()
-	return out.String(), err
+	res := out.String()
+	if race {
+		for _, mark := range []string{"WARNING: DATA RACE", "fatal error: concurrent map"} {
+			if strings.Contains(res, mark) {
+				res += "\nGOVC-SCENARIO confirmed: the race detector / runtime reports: " + mark + "\n"
+				break
+			}
+		}
+	}
+	return res, err
 }
 
 func (e *Exec) usesAbstract() []string {
